@@ -30,7 +30,7 @@ def corpus():
 
 def generate(rng, tier):
     yield from gc.directed(3 if tier == "quick" else 5)
-    n = 3000 if tier == "quick" else 60000
+    n = 5000 if tier == "quick" else 60000
     for i in range(n):
         c = gc.gen(rng, depth=rng.choice([2, 3, 3, 4]), p_raise=rng.choice([0.03, 0.08]), p_cancel=rng.choice([0.3, 0.5]))
         yield c
